@@ -118,10 +118,10 @@ def main():
                 bad_path_committed = None
                 for step in range(rnd.randrange(2, 9)):
                     op = rnd.choice(["store", "has", "fetch", "sync", "fetchp", "reopen", "other_writer"])
-                    key = rnd.choice(["k1", "k2", "k3"])
+                    key = rnd.choice(["k1", "k2", "k3", "k4"])
                     if op == "store":
-                        # k3 denotes a value whose serialised form is empty (present all the same once stored)
-                        val = "" if key == "k3" else "value-of-" + key
+                        # k3 denotes a value whose serialised form is empty, k4 the value None (present all the same once stored)
+                        val = "" if key == "k3" else (None if key == "k4" else "value-of-" + key)
                         st.store_blob(key, val, None)
                         blobs[key] = val
                         ops.append("store(%s)" % key)
